@@ -20,6 +20,10 @@ pub struct FrameSpec {
     /// 0 = zero context, k = k-th registered context
     pub ctx: usize,
     pub ttl: String,
+    /// "" = append this frame; "reimport:<k>" = import the k-th frame of the pre-history again,
+    /// unchanged; "remove:<k>" = remove it
+    #[serde(default)]
+    pub act: String,
 }
 
 fn fs(topic: &str, ctx: usize, ttl: &str) -> FrameSpec {
@@ -27,6 +31,16 @@ fn fs(topic: &str, ctx: usize, ttl: &str) -> FrameSpec {
         topic: topic.into(),
         ctx,
         ttl: ttl.into(),
+        act: String::new(),
+    }
+}
+
+fn act(a: &str) -> FrameSpec {
+    FrameSpec {
+        topic: String::new(),
+        ctx: 0,
+        ttl: String::new(),
+        act: a.into(),
     }
 }
 
@@ -83,6 +97,7 @@ const ACTIVE_DEFAULT: &[&str] = &[
     "live.done",
     "live.recv",
     "live.send",
+    "beat.tick",
     "beat.send",
     "consumer.recv",
 ];
@@ -158,6 +173,7 @@ pub fn run_one(sc: &Scenario, prefix: &[usize], props: &[&str]) -> ExecResult {
     }
     let appended: Arc<Mutex<Vec<Appended>>> = Arc::new(Mutex::new(vec![]));
     let mut pre_ids = vec![];
+    let mut pre_frames: Vec<Frame> = vec![];
     for p in &sc.pre {
         let f = store
             .append(
@@ -167,6 +183,7 @@ pub fn run_one(sc: &Scenario, prefix: &[usize], props: &[&str]) -> ExecResult {
             )
             .unwrap();
         pre_ids.push(f.id);
+        pre_frames.push(f.clone());
         let stored = f.ttl != Some(TTL::Ephemeral);
         appended.lock().unwrap().push(Appended {
             frame: f,
@@ -198,6 +215,7 @@ pub fn run_one(sc: &Scenario, prefix: &[usize], props: &[&str]) -> ExecResult {
         let ops = ops.clone();
         let ctx_ids = ctx_ids.clone();
         let appended = appended.clone();
+        let pre_frames = pre_frames.clone();
         threads.push(std::thread::spawn(move || {
             xs::verif::set_actor(Some(who));
             let _g = ExtGuard {
@@ -206,6 +224,14 @@ pub fn run_one(sc: &Scenario, prefix: &[usize], props: &[&str]) -> ExecResult {
             };
             for op in ops {
                 ctl2.ext_point(who, "w.op", &|| true);
+                if let Some(k) = op.act.strip_prefix("reimport:") {
+                    let _ = store2.insert_frame(&pre_frames[k.parse::<usize>().unwrap()]);
+                    continue;
+                }
+                if let Some(k) = op.act.strip_prefix("remove:") {
+                    let _ = store2.remove(&pre_frames[k.parse::<usize>().unwrap()].id);
+                    continue;
+                }
                 let began = ctl2.steps().len();
                 let r = store2.append(
                     Frame::builder(op.topic.clone(), ctx_ids[op.ctx])
@@ -312,7 +338,7 @@ pub fn run_one(sc: &Scenario, prefix: &[usize], props: &[&str]) -> ExecResult {
     let mut last: Option<Who> = None;
     let mut obs = Observer::new(&ctx_ids);
     let mut probed = false;
-    let mut drain_left = 2 * sc.readers.len();
+    let mut drain_left = 4 * sc.readers.len();
     let mut nsteps = 0usize;
     let watchdog = Duration::from_secs(20);
     let eager: BTreeSet<Who> = sc
@@ -330,7 +356,8 @@ pub fn run_one(sc: &Scenario, prefix: &[usize], props: &[&str]) -> ExecResult {
                 break;
             }
         };
-        obs.observe(&store, &mut findings, props);
+        let seen_eph: Vec<(Scru128Id, Scru128Id)> = appended.lock().unwrap().iter().filter(|a| !a.stored).map(|a| (a.frame.context_id, a.frame.id)).collect();
+        obs.observe(&store, &mut findings, props, &seen_eph);
         if let Some(ci) = sc.remove_ctx {
             if obs.ctx_gone_at.is_none() && store.get(&ctx_ids[ci]).is_none() {
                 obs.ctx_gone_at = Some(ctl.steps().len());
@@ -339,12 +366,12 @@ pub fn run_one(sc: &Scenario, prefix: &[usize], props: &[&str]) -> ExecResult {
         // candidates: enabled, beat only within its tick horizon
         let mut cands: Vec<(Who, &'static str)> = parked
             .iter()
-            .filter(|(w, _, en, grants)| *en && !(w.kind == "beat" && *grants >= sc.max_ticks))
+            .filter(|(w, _, en, grants)| *en && !(w.kind == "beat" && *grants >= 2 * sc.max_ticks))
             .map(|(w, op, _, _)| (*w, *op))
             .collect();
         let beat_over: Vec<Who> = parked
             .iter()
-            .filter(|(w, _, en, grants)| *en && w.kind == "beat" && *grants >= sc.max_ticks)
+            .filter(|(w, _, en, grants)| *en && w.kind == "beat" && *grants >= 2 * sc.max_ticks)
             .map(|(w, _, _, _)| *w)
             .collect();
         if cands.is_empty() {
@@ -438,6 +465,32 @@ pub fn run_one(sc: &Scenario, prefix: &[usize], props: &[&str]) -> ExecResult {
                 }
             }
         }
+        if props.contains(&"C05") {
+            // quiescent: by id <=> all-contexts stream <=> own context's stream; head is the last
+            // frame of its topic in the context's stream
+            let mut scopes = ctx_ids.clone();
+            scopes.sort();
+            scopes.dedup();
+            for a in app.iter().filter(|a| a.stored) {
+                let by_id = store.get(&a.frame.id).is_some();
+                let in_all = final_stream.iter().any(|f| f.id == a.frame.id);
+                let in_ctx = store.read_sync(None, None, Some(a.frame.context_id)).any(|f| f.id == a.frame.id);
+                if by_id != in_all || by_id != in_ctx {
+                    findings.push(Finding { kind: "c05.agree".into(), msg: format!("frame {} ({}): by id = {}, all-contexts stream = {}, its context's stream = {}", a.frame.id, a.frame.topic, by_id, in_all, in_ctx) });
+                }
+            }
+            for c in &scopes {
+                let cs: Vec<Frame> = store.read_sync(None, None, Some(*c)).collect();
+                let topics: BTreeSet<String> = app.iter().map(|a| a.frame.topic.clone()).collect();
+                for t in topics {
+                    let want = cs.iter().filter(|f| f.topic == t).last().map(|f| f.id);
+                    let got = store.head(&t, *c).map(|f| f.id);
+                    if want != got {
+                        findings.push(Finding { kind: "c05.head".into(), msg: format!("head({:?}, {}) = {:?} but the last frame of that topic in the context's stream is {:?}", t, c, got, want) });
+                    }
+                }
+            }
+        }
         let all_ids: BTreeSet<Scru128Id> = app.iter().map(|a| a.frame.id).collect();
         let rank = |id: &Scru128Id| all_ids.iter().position(|x| x == id).map(|r| r.to_string()).unwrap_or("s".into());
         for (ri, rs) in sc.readers.iter().enumerate() {
@@ -449,8 +502,11 @@ pub fn run_one(sc: &Scenario, prefix: &[usize], props: &[&str]) -> ExecResult {
                 .filter(|s| reader_of(&steps, s.who, sc.readers.len()) == Some(ri) || sc.readers.len() == 1)
                 .map(|s| s.who.kind)
                 .collect();
-            // heartbeats granted after the live task of this reader had ended
+            // heartbeats whose tick (the end of the heartbeat's sleep) came after the live task of
+            // this reader had ended: the stream was over when the pulse was decided. A pulse
+            // whose tick preceded the end is merely in flight and legitimate.
             let mut live_done = false;
+            let mut tick_after_end = false;
             let mut late_beats = 0usize;
             for s in steps.iter() {
                 if reader_of(&steps, s.who, sc.readers.len()) != Some(ri) {
@@ -459,7 +515,10 @@ pub fn run_one(sc: &Scenario, prefix: &[usize], props: &[&str]) -> ExecResult {
                 if s.who.kind == "live" && s.op == "finished" {
                     live_done = true;
                 }
-                if live_done && s.who.kind == "beat" && s.op == "beat.send" {
+                if s.who.kind == "beat" && s.op == "beat.tick" {
+                    tick_after_end = live_done;
+                }
+                if tick_after_end && s.who.kind == "beat" && s.op == "beat.send" {
                     late_beats += 1;
                 }
             }
@@ -552,6 +611,8 @@ struct Observer {
     prev_ctx: BTreeMap<Scru128Id, Vec<Scru128Id>>,
     poll_last: Option<Scru128Id>,
     polled: Vec<Scru128Id>,
+    /// per context: a reconnecting follower (cursor = last frame it saw, stored or ephemeral)
+    cpoll: BTreeMap<Scru128Id, (Option<Scru128Id>, Vec<Scru128Id>)>,
     snapshots: usize,
     /// step count at the first observation that found the removed registration frame gone
     ctx_gone_at: Option<usize>,
@@ -565,6 +626,7 @@ impl Observer {
             prev_ctx: BTreeMap::new(),
             poll_last: None,
             polled: vec![],
+            cpoll: BTreeMap::new(),
             snapshots: 0,
             ctx_gone_at: None,
         }
@@ -590,9 +652,37 @@ impl Observer {
         }
     }
 
-    fn observe(&mut self, store: &Store, findings: &mut Vec<Finding>, props: &[&str]) {
+    fn observe(&mut self, store: &Store, findings: &mut Vec<Finding>, props: &[&str], seen_eph: &[(Scru128Id, Scru128Id)]) {
         if !props.contains(&"C02") {
             return;
+        }
+        // context-scoped resume: the cursor is the last frame the client saw in that context -
+        // possibly an ephemeral one, which is not stored
+        let mut scopes = self.ctxs.clone();
+        scopes.push(ZERO_CONTEXT);
+        scopes.sort();
+        scopes.dedup();
+        for c in scopes {
+            let (cursor, polled) = self.cpoll.entry(c).or_insert((None, vec![]));
+            let new: Vec<Scru128Id> = store.read_sync(cursor.as_ref(), None, Some(c)).map(|f| f.id).collect();
+            for id in &new {
+                if cursor.map(|l| *id <= l).unwrap_or(false) {
+                    findings.push(Finding { kind: "c02.resume.before_cursor".into(), msg: format!("context {}: a read with last-id {} returned {} which is not after it", c, cursor.unwrap(), id) });
+                } else if polled.contains(id) {
+                    findings.push(Finding { kind: "c02.resume.twice".into(), msg: format!("context {}: frame {} was returned to the resuming client a second time", c, id) });
+                }
+            }
+            if let Some(l) = new.last() {
+                if cursor.map(|c0| *l > c0).unwrap_or(true) {
+                    *cursor = Some(*l);
+                }
+            }
+            polled.extend(new);
+            if let Some(e) = seen_eph.iter().filter(|(ec, _)| *ec == c).map(|(_, id)| *id).max() {
+                if cursor.map(|c0| e > c0).unwrap_or(true) {
+                    *cursor = Some(e);
+                }
+            }
         }
         self.snapshots += 1;
         let all: Vec<Scru128Id> = store.read_sync(None, None, None).map(|f| f.id).collect();
@@ -615,6 +705,14 @@ impl Observer {
     fn finish(&mut self, final_stream: &[Frame], findings: &mut Vec<Finding>, props: &[&str]) {
         if !props.contains(&"C02") {
             return;
+        }
+        for (c, (_, polled)) in &self.cpoll {
+            let want: Vec<Scru128Id> = final_stream.iter().filter(|f| f.context_id == *c).map(|f| f.id).collect();
+            let mut got = polled.clone();
+            got.dedup();
+            if got != want && self.snapshots > 0 {
+                findings.push(Finding { kind: "c02.resume.incomplete".into(), msg: format!("context {}: the resuming client collected {:?}, the context's stream holds {:?}", c, got, want) });
+            }
         }
         let want: Vec<Scru128Id> = final_stream.iter().map(|f| f.id).collect();
         if self.polled != want {
@@ -744,8 +842,8 @@ fn check_reader(
             findings.push(Finding { kind: "gap.open".into(), msg: format!("{}: required frame {} was never delivered and the stream is still open at quiescence", name, first_missing) });
         }
     }
-    if c11 && late_beats > 1 {
-        findings.push(Finding { kind: "pulse.after_end".into(), msg: format!("{}: {} heartbeats were sent after the live subscription of this stream had ended", name, late_beats) });
+    if c11 && late_beats > 0 {
+        findings.push(Finding { kind: "pulse.after_end".into(), msg: format!("{}: {} heartbeat(s) were sent although the live subscription of this stream had already ended when the heartbeat's interval elapsed", name, late_beats) });
     }
     // C11: limit
     if let Some(n) = rs.limit {
@@ -884,6 +982,12 @@ pub fn scenarios(prop: &str, tier: &str) -> Vec<Scenario> {
             v.push(s);
             let mut s = base("2w2");
             s.writers = vec![vec![fs("a", 0, ""), fs("a", 0, "")], vec![fs("b", 0, ""), fs("b", 0, "")]];
+            v.push(s);
+            // a resuming client whose cursor is an ephemeral frame (never stored), per context
+            let mut s = base("2w2-eph-cursor-ctx");
+            s.contexts = 1;
+            s.pre = vec![fs("h", 1, ""), fs("h", 0, "")];
+            s.writers = vec![vec![fs("a", 1, ""), fs("a", 1, "ephemeral")], vec![fs("b", 0, "ephemeral"), fs("b", 1, "")]];
             v.push(s);
             if thorough {
                 let mut s = base("3w1");
@@ -1083,6 +1187,22 @@ pub fn scenarios(prop: &str, tier: &str) -> Vec<Scenario> {
             s.active.extend(["ctx.unregister", "commit.pre", "commit.post"].iter().map(|x| x.to_string()));
             v.push(s);
         }
+        "C05" => {
+            // an import of a stored frame racing its removal (and an appender of the same topic)
+            for (nm, ctx) in [("reimport-vs-remove", 0usize), ("reimport-vs-remove-ctx", 1usize)] {
+                let mut s = base(nm);
+                s.contexts = 1;
+                s.pre = vec![fs("a", ctx, ""), fs("a", ctx, "")];
+                s.writers = vec![vec![act("reimport:0")], vec![act("remove:0")], vec![fs("a", ctx, "")]];
+                s.active.extend(["commit.pre", "commit.post"].iter().map(|x| x.to_string()));
+                v.push(s);
+            }
+            let mut s = base("reimport-last-vs-remove");
+            s.pre = vec![fs("a", 0, ""), fs("a", 0, "")];
+            s.writers = vec![vec![act("reimport:1"), act("reimport:1")], vec![act("remove:1")]];
+            s.active.extend(["commit.pre", "commit.post"].iter().map(|x| x.to_string()));
+            v.push(s);
+        }
         "C06" => {
             // scoped followers (from start, tail, last-id) with writers in both contexts
             let mut s = base("ctx-begin-2w1");
@@ -1150,6 +1270,7 @@ fn owned_props(prop: &str) -> Vec<&'static str> {
         "C11" => vec!["C11"],
         "C06" => vec!["C06"],
         "C07" => vec!["C07"],
+        "C05" => vec!["C05"],
         _ => vec![],
     }
 }
